@@ -298,6 +298,16 @@ Eval vm_compute in (4%nat, idx (fun c => let '(ops, st, tn, o, i) := c in same (
             out.violation(dict(kind=kind, key=key, definition=P.show(c["rec"]["d"]), definition_id=c["rec"]["id"], cuts=c["cuts"], job_name=c["jn"],
                                n_jobs=len(c["jobs"]), jobs=c["jobs"] if len(c["jobs"]) <= 12 else None,
                                one_shot=chains[k]["one"], chained=chains[k]["chain"], errors=chains[k]["errors"]))
+    # leg D: the glue (several job names, -im / -om, chained invocations) vs V.Pv.Driver.chain
+    from . import c04_driver
+    dl = c04_driver.leg(out, 40 if quick else 400) if okp else None
+    if dl:
+        for b in dl["bad"][:2]:
+            out.violation(b)
+        if (dl["disagreements"] or dl["coq_failures"]) and not out.violations:
+            out.violation({"kind": "correspondence-broken",
+                           "relation": "model files written by pv_streams_to_puml_files over a chain of invocations == V.Pv.Driver.chain",
+                           "disagreements": dl["disagreements"][:3], "coq_failures": dl["coq_failures"][:2]}, no_failing_input=True)
     if okp and (dis or coq_fail or fails) and not out.violations:
         out.violation({"kind": "correspondence-broken",
                        "relation": "update_and_create_events_from_clustered_pvevents / events_to_raw_input / raw_input_to_events / "
@@ -307,11 +317,14 @@ Eval vm_compute in (4%nat, idx (fun c => let '(ops, st, tn, o, i) := c in same (
     out.coverage.update({
         "evaluations": n_models + len(rows_s) + len(cases), "distinct_nontrivial": len({c["rec"]["id"] for c in cases}) + len(set(rows_s)),
         "rule": "model correspondence: job sets of pool definitions (complete or half) through real ingestion + raw model round trip; "
-                "300 random operation histories (update out/in, get tree, save+load) on a real Event; CLI chains: pool definitions, jobs "
+                "300 random operation histories (update out/in, get tree, save+load) on a real Event; driver leg: chains of 1-3 in-process invocations of pv_streams_to_puml_files with 1-3 job names "
+                "(some with spaces, some colliding after space replacement, some repeated inside one invocation), every model file fed back; "
+                "CLI chains: pool definitions, jobs "
                 "shuffled, split into 2-3 chunks at seeded points, each boundary crossing pv2puml -om / -im; non-trivial = distinct "
                 "definition or distinct history",
         "samples": [dict(definition=P.show(cases[0]["rec"]["d"]), cuts=cases[0]["cuts"], n_jobs=len(cases[0]["jobs"]))] if cases else [],
-        "traces_validated_against_impl": n_models + len(rows_s),
+        "traces_validated_against_impl": n_models + len(rows_s) + (dl["compared"] if dl else 0),
+        "driver_leg": None if not dl else {k: dl[k] for k in ("chains", "compared", "skipped_learner_errors", "first_error", "collisions", "repeats")},
         "cli_chains": len(cases), "model_cases": n_models, "staleness_histories": len(rows_s),
         "model_impl_disagreements": len(dis), "pinned_staleness_model_disagreements": len(dis_v0),
         "failure_kinds": kinds, "failing_keys": failing,
